@@ -131,8 +131,11 @@ func (FormCodec) Unmarshal(data []byte, v interface{}) error {
 		}
 		switch vvv.Kind() {
 		case reflect.Interface:
-			// *interface{}
-			vvv.Set(reflect.ValueOf(form))
+			// pointer(s) to an interface type that can hold the form
+			if fv := reflect.ValueOf(form); fv.Type().AssignableTo(vvv.Type()) {
+				vvv.Set(fv)
+				return nil
+			}
 		case reflect.Struct:
 			return mapFormToStruct(vvv, form)
 		}
